@@ -512,6 +512,130 @@ func (w *wk) famKeyEnc(n int) {
 	}
 }
 
+// pointsNear returns the first `cnt` curve points with x = base + step*j, j = 1, 2, ... (even Y).
+func pointsNear(base *big.Int, step int64, cnt int) []refec.Point {
+	var res []refec.Point
+	for j := int64(1); len(res) < cnt; j++ {
+		x := new(big.Int).Add(base, big.NewInt(step*j))
+		if pt, ok := refec.LiftX(x); ok {
+			res = append(res, pt)
+		}
+	}
+	return res
+}
+
+// famBoundary: triples that are valid (or invalid) *by construction* at the range boundaries that honest
+// signing never reaches: nonce point with x in [n, p) (r = x - n), nonce point with tiny x (r + n < p),
+// s = 1 / n-1, key and tweak operands just below p / n. The public key is derived from the chosen
+// (R, r, s, m) as Q = r^-1 (s*R - m*G) with reference arithmetic, so no secret key is needed.
+func (w *wk) famBoundary(n int) {
+	geN := pointsNear(N, 1, 6)     // x = n + j on the curve
+	small := smallXPoints(6)       // x = j
+	belowP := pointsNear(P, -1, 6) // x = p - j
+	b32 := refec.Bytes32
+	one := big.NewInt(1)
+	nm1 := new(big.Int).Sub(N, one)
+	w.run.Count("boundary_points_x>=n", int64(len(geN)))
+	offer := func(sub string, Q refec.Point, r, s *big.Int, msg []byte) {
+		encs := keyEncodings(Q)
+		for _, name := range encNames {
+			w.ecdsa(sub+"/"+name, encs[name], refec.EncodeDER(r, s), msg, 0)
+		}
+	}
+	sVals := func() []*big.Int {
+		return []*big.Int{w.scalar(), one, nm1, refec.HalfN, new(big.Int).Add(refec.HalfN, one)}
+	}
+	for i := 0; i < n; i++ {
+		// 1. R.x in [n, p): r = R.x - n
+		R := geN[(i+w.chunk)%len(geN)]
+		j := new(big.Int).Sub(R.X, N)
+		for par := 0; par < 2; par++ {
+			for _, s := range sVals() {
+				msg := w.message()
+				Q, ok := refec.ECDSARecover(j, s, msg, 2|par)
+				if !ok {
+					continue
+				}
+				offer("R.x>=n", Q, j, s, msg)
+				// the same signature with r written unreduced (r = R.x >= n) is out of range
+				w.ecdsa("R.x>=n/r-unreduced", Q.SerializeCompressed(), refec.EncodeDER(R.X, s), msg, 0)
+			}
+		}
+		// 2. tiny R.x: r = R.x is valid, r + n (< p, also "an x coordinate") is not
+		Rs := small[(i+w.chunk)%len(small)]
+		for par := 0; par < 2; par++ {
+			s, msg := w.scalar(), w.message()
+			Q, ok := refec.ECDSARecover(Rs.X, s, msg, par)
+			if !ok {
+				continue
+			}
+			offer("R.x-small", Q, Rs.X, s, msg)
+			w.ecdsa("R.x-small/r+n", Q.SerializeCompressed(), refec.EncodeDER(new(big.Int).Add(Rs.X, N), s), msg, 0)
+			w.ecdsa("R.x-small/r+n/uncompressed", Q.SerializeUncompressed(), refec.EncodeDER(new(big.Int).Add(Rs.X, N), s), msg, 0)
+		}
+		// 3. ordinary nonce point, s at the ends of [1, n-1]
+		Rk := refec.ScalarBaseMult(w.scalar())
+		for _, s := range []*big.Int{one, nm1, big.NewInt(2), new(big.Int).Sub(N, big.NewInt(2))} {
+			msg := w.message()
+			rr := new(big.Int).Mod(Rk.X, N)
+			Q, ok := refec.ECDSARecover(rr, s, msg, int(Rk.Y.Bit(0)))
+			if !ok {
+				continue
+			}
+			offer("s-at-range-end", Q, rr, s, msg)
+		}
+		// 4. key coordinates just below p
+		K := belowP[(i+w.chunk)%len(belowP)]
+		if w.rng.Bool() {
+			K = K.Neg()
+		}
+		r, s, msg := w.forgeFor(K)
+		offer("key-x-just-below-p", K, r, s, msg)
+		for _, sy := range smallYPoints(2) {
+			Kn := sy.Neg() // y = p - small
+			r, s, msg := w.forgeFor(Kn)
+			offer("key-y-just-below-p", Kn, r, s, msg)
+		}
+		// 5. BIP341 operands at the boundaries
+		Pi := belowP[(i+w.chunk+1)%len(belowP)] // even Y: a liftable internal key with x = p - j
+		t := refec.TapTweakHash(b32(Pi.X), w.rng.Bytes(32))
+		if Q, why := refec.TaprootOutputKey(b32(Pi.X), t); why == "" {
+			w.tweak("internal-x-just-below-p", b32(Q.X), b32(Pi.X), t, Q.Y.Bit(0) == 1)
+		}
+		Qo := belowP[(i+w.chunk+2)%len(belowP)]
+		if w.rng.Bool() {
+			Qo = Qo.Neg()
+		}
+		tt := w.scalar()
+		if Pin := refec.Add(Qo, refec.ScalarBaseMult(tt).Neg()); !Pin.Inf && Pin.Y.Bit(0) == 0 {
+			w.tweak("output-x-just-below-p", b32(Qo.X), b32(Pin.X), b32(tt), Qo.Y.Bit(0) == 1)
+		}
+		d := w.scalar()
+		Ph := refec.ScalarBaseMult(d)
+		if Ph.Y.Bit(0) == 1 {
+			Ph = Ph.Neg()
+		}
+		for _, tv := range []*big.Int{nm1, one, big.NewInt(0), new(big.Int).Sub(N, big.NewInt(2)), N} {
+			Qe := refec.Add(Ph, refec.ScalarBaseMult(new(big.Int).Mod(tv, N)))
+			if Qe.Inf {
+				continue
+			}
+			w.tweak("t-at-range-end", b32(Qe.X), b32(Ph.X), b32(tv), Qe.Y.Bit(0) == 1)
+		}
+		// 6. BIP340: r / pk that are x coordinates just below p, s = n-1 (no valid signature can be built for them
+		// without the discrete log / a hash preimage: both sides must reject, for the equation, not the range)
+		_, pk, m2, _, sig := w.schnorrTriple()
+		mut := append([]byte(nil), sig...)
+		copy(mut[:32], b32(belowP[i%len(belowP)].X))
+		w.schnorr("r-on-curve-just-below-p", pk, mut, m2)
+		w.schnorr("pk-liftable-just-below-p", b32(belowP[i%len(belowP)].X), sig, m2)
+		mut = append([]byte(nil), sig...)
+		copy(mut[32:], b32(nm1))
+		w.schnorr("s=n-1", pk, mut, m2)
+		w.schnorr("pk-x>=n-on-curve", b32(geN[i%len(geN)].X), sig, m2)
+	}
+}
+
 // keys that are not curve points, signature built so that the implementation's own arithmetic closes
 func (w *wk) famAlgebraic(n int) {
 	for i := 0; i < n; i++ {
@@ -1125,6 +1249,8 @@ func worker(args []string) {
 		w.famKeyEnc(n)
 	case "algebraic":
 		w.famAlgebraic(n)
+	case "boundary":
+		w.famBoundary(n)
 	case "schnorr-valid":
 		w.famSchnorrValid(n)
 	case "schnorr-flip":
@@ -1242,6 +1368,7 @@ func main() {
 	addJobs("rs-edge", run.N(4, 64), run.N(700, 8000))
 	addJobs("key-enc", run.N(4, 64), run.N(600, 8000))
 	addJobs("algebraic", run.N(2, 32), run.N(250, 4000))
+	addJobs("boundary", run.N(6, 64), run.N(12, 150)) // ~75 constructed cases per iteration
 	addJobs("schnorr-valid", run.N(2, 32), run.N(300, 5000))
 	addJobs("schnorr-edge", run.N(4, 64), run.N(500, 8000))
 	addJobs("tweak", run.N(4, 64), run.N(700, 8000))
